@@ -130,7 +130,7 @@ def main():
         "setup_cmd": "cd /verif/govc && GOFLAGS=-mod=mod GOPROXY=off GOSUMDB=off GOTOOLCHAIN=local go build -o /verif/bin/govc .",
         "hooks": {
             "guard": "verif",
-            "enable": "-tags verif (govc loads /repo with this tag; the only guarded files are comment-only zz_contracts_verif.go contract files)",
+            "enable": "-tags verif: govc loads /repo with this tag. Guarded files: the comment-only zz_contracts_verif.go contract files (one per package under contract), and srv/zz_hooks_verif.go / srv/zz_hooks_noverif.go - the yield-point dispatcher used only by the schedule replays of the Service.Start findings (the two verifYield(...) call lines in srv/service.go call an empty function without the tag)",
             "baseline_off_cmd": "cd /repo && go test -mod=mod -vet=off -count=1 -timeout 25m ./...",
             "source_commits": hook_commits,
             "add_only": True,
